@@ -91,6 +91,10 @@ func (g *scriptGen) lineText() []TextPart {
 	t := g.t
 	g.lineID++
 	parts := []TextPart{{S: fmt.Sprintf("L%d", g.lineID)}}
+	if rapid.IntRange(0, 7).Draw(t, "oddstart") == 0 {
+		// lines whose first characters could be mistaken for something else by a line-oriented look-ahead
+		parts[0].S = rapid.SampledFrom([]string{"/k ", "a/b ", "<k ", "é ", "- ", "= ", "} ", "] ", "/", "x/"}).Draw(t, "start") + parts[0].S
+	}
 	switch rapid.IntRange(0, 9).Draw(t, "linekind") {
 	case 0:
 		parts = append(parts, TextPart{S: " k1="}, TextPart{E: varRef("k1")})
